@@ -19,10 +19,12 @@ func init() {
 			"a pool of byte strings (valid messages of every kind with nested countersignatures, stand-alone objects and buckets, damaged variants, other kinds' encodings, truncations) and a tape-chosen history of <= 16 operations LOAD(buffer <- bytes), DECODE(destination <- buffer), " +
 			"SCRIBBLE(buffer or an earlier encoder output), ENCODE(destination -> new output), MUTATE(the application edits one decoded copy: no other destination, and no later decode of the same bytes, may be affected). Reference model per destination: the value obtained by decoding a pristine private copy of the last successfully decoded bytes into a fresh variable (zero value if none). " +
 			"After every operation each destination's deep snapshot must equal the model's; after a failing DECODE it must also equal the snapshot taken just before; no byte slice reachable from a destination may point into a harness buffer or an earlier output (checked on addresses, independent of the scribble pattern). " +
+			"One run in twelve is a CONCURRENT_DECODE block instead: 2-4 caller tasks (request handlers) each decode 1-3 byte strings of the pool (half of the blocks: plus a chain of 4-12 nested countersignatures; a third: every task the same inputs) from buffers and into destinations of their own, " +
+			"under a schedule drawn from the tape before the tasks start (every statement of go-cose is a preemption point: explicit preemptions, seeded random with stickiness, or lock step); every result (verdict and deep snapshot of the value, input buffer untouched) must equal what the same bytes give when decoded alone afterwards - what other goroutines are decoding at that moment is history like any other. " +
 			"Non-trivial = at least one successful and one further decode into the same destination, or a scribble after a decode; distinct = distinct (operation kinds, decoders, outcomes) sequence.",
 		Assumptions: []string{"deep snapshots (types, nil vs empty, map contents, pointer graph) are what a reader can observe of a value"},
 		Real:        []string{"github.com/veraison/go-cose decoders and encoders", "github.com/fxamacker/cbor/v2"},
-		Stubs:       []string{"server loop reusing destinations and buffers", "wire traffic with fault injection", "foreign peer (reference model)", "entropy source"},
+		Stubs:       []string{"server loop reusing destinations and buffers", "wire traffic with fault injection", "foreign peer (reference model)", "entropy source", "caller tasks of the concurrent-decode blocks (serialised by the tape-driven scheduler)"},
 		QuickRuns:   100000, ThoroughRuns: 2000000,
 	}
 }
